@@ -31,6 +31,8 @@ EXPLANATION = (
 )
 TECHNIQUE += "; finite-domain constant evaluation of the Molden tag writer against the reader's tag branch; symbolic index-map evaluation of the convention-application expressions"
 EXPLANATION += " Added: (R8) for all eight Cartesian/pure combinations of d, f, g shells the tags written by molden.dump_one are read back by the Molden reader's tag branch as the same kinds (both evaluated by the whitelisted constant evaluator); (R9) every expression that applies (permutation, signs) to orbital coefficients, evaluated on symbolic arrays with a non-trivial permutation, yields row r = signs[r] * source row permutation[r]."
+TECHNIQUE += '; evaluation of the five prepare_dump routines on abstract objects'
+EXPLANATION += ' R6 is now the semantic guard matrix: prepare_unrestricted_aminusb and the prepare_dump routine of each wavefunction writer are interpreted on 13 abstract objects (no orbitals / no basis / generalized / ROHF with a hole / fractional / unrestricted with alpha or beta hole / explicit occs_aminusb / pure shell / SP shell / general contraction ...) x allow_changes, and every outcome (error / same object / warned conversion) is compared with the documented capabilities (Appendix C).'
 TRUSTED = ["CPython ast parser", "numpy fancy indexing a[p] places a[p[i]] at row i", "float()/int() do not accept thousands separators"]
 
 WRITERS = ("fchk", "molden", "molekel", "wfn", "wfx")
